@@ -128,15 +128,33 @@ def san_env(tag):
     env["UBSAN_OPTIONS"] = f"log_path={lp}:halt_on_error=1:exitcode=77:print_stacktrace=1"
     env["TSAN_OPTIONS"] = f"log_path={lp}:exitcode=66:halt_on_error=1:report_signal_unsafe=0:suppress_equal_stacks=0:suppress_equal_addresses=0:history_size=4"
     env["MSAN_OPTIONS"] = f"log_path={lp}:exitcode=77"
+    env["GMSIM_STDERR_CAP"] = lp + ".stderr"
     return env, lp
 
 
-def classify_sanlog(lp, pid):
-    """-> (class, excerpt) from a sanitizer log written by process pid"""
+def take_stderr_cap(lp, pid):
+    path = f"{lp}.stderr.{pid}"
+    try:
+        with open(path, "rb") as f:
+            f.seek(0, 2)
+            n = f.tell()
+            f.seek(max(0, n - 6000))
+            txt = f.read().decode(errors="replace")
+        os.unlink(path)
+        return txt
+    except OSError:
+        return ""
+
+
+def classify_sanlog(lp, pid, captured=""):
+    """-> (class, excerpt) from a sanitizer log written by process pid; `captured` is the tail of the
+    worker's own stderr that the harness hands over when a sanitizer kills it (UBSan writes there)"""
     path = f"{lp}.{pid}"
-    if not os.path.exists(path):
+    txt = open(path, errors="replace").read() if os.path.exists(path) else ""
+    if captured and not re.search(r"Sanitizer: |runtime error: ", txt):
+        txt = txt + "\n" + captured
+    if not txt:
         return None, ""
-    txt = open(path, errors="replace").read()
     kind = "unknown"
     if "WARNING: ThreadSanitizer: data race" in txt:
         # the library function that made the first of the two accesses (frames of libc and of the harness are skipped)
@@ -209,6 +227,7 @@ class Worker(threading.Thread):
         p = subprocess.Popen(cmd, stdout=subprocess.PIPE, stderr=subprocess.DEVNULL, text=True, env=env, cwd=VERIF)
         out, _ = p.communicate()
         rc = p.returncode
+        cap = take_stderr_cap(lp, p.pid)
         runs, last_begin, plan, in_plan, hang = 0, None, None, False, None
         pending_viol = None
         for line in out.splitlines():
@@ -241,6 +260,10 @@ class Worker(threading.Thread):
             elif line.startswith("HARNESS-ERROR"):
                 self.results.append(("harness", {"msg": line, "variant": variant, "scn": scn}))
         if rc == 0:
+            try:
+                os.unlink(f"{lp}.{p.pid}")       # ASan's start-up warning about swapcontext, nothing else
+            except OSError:
+                pass
             return cnt
         # the process died inside a run
         if last_begin is None:
@@ -251,7 +274,7 @@ class Worker(threading.Thread):
         if hang is not None:
             cls = "hang:" + hang.get("kind", "cpu")
         elif rc in (77, 66):
-            cls, excerpt = classify_sanlog(lp, p.pid)
+            cls, excerpt = classify_sanlog(lp, p.pid, cap)
             cls = cls or "memerr:unknown@?"
         elif rc < 0:
             cls = "crash:" + signal.Signals(-rc).name
@@ -290,10 +313,12 @@ def replay_once(variant, plan_text, leak=False, log=None, timeout=300):
         except subprocess.TimeoutExpired:
             p.kill()
             out, _ = p.communicate()
+            take_stderr_cap(lp, p.pid)
             return dict(cls="hang:timeout", fp="", detail="replay timed out")
     finally:
         os.unlink(path)
     rc = p.returncode
+    cap = take_stderr_cap(lp, p.pid)
     res = dict(cls=None, fp="", detail="", leak=None, leakdetail="")
     hang = None
     for line in out.splitlines():
@@ -316,7 +341,7 @@ def replay_once(variant, plan_text, leak=False, log=None, timeout=300):
     if hang is not None:
         res["cls"] = "hang:" + hang.get("kind", "cpu")
     elif rc in (77, 66):
-        res["cls"], res["detail"] = classify_sanlog(lp, p.pid)
+        res["cls"], res["detail"] = classify_sanlog(lp, p.pid, cap)
         res["cls"] = res["cls"] or "memerr:unknown@?"
     elif rc < 0:
         res["cls"] = "crash:" + signal.Signals(-rc).name
